@@ -153,6 +153,8 @@ def run_one(sh, case, driver='generated'):
                                           % (i, ep, i - cum, got[i], exp[i])})
             else:
                 sh.note('per_epoch_list')
+                if any('threshold_kwargs' not in (o or {}) for o in kw) and any('threshold_kwargs' in (o or {}) for o in kw):
+                    sh.note('per_epoch_list_with_defaulted_epochs')
                 for k, d in enumerate(res):
                     ok = dict(kw[k] or {})
                     thr = dict(ok.get('threshold_kwargs') or {})
@@ -267,6 +269,8 @@ def make_case(rng):
                 o['threshold_kwargs'] = {'burst_fraction_threshold': float(rng.choice([0, .3, .5, 1.]))}
                 if rng.random() < 0.5:
                     o['threshold_kwargs']['min_n_cycles'] = int(rng.choice([1, 2, 3]))
+            if rng.random() < 0.25:
+                del o['threshold_kwargs']          # this epoch uses the documented defaults
             kw.append(o)
     return dict(sigs=sigs, fs=fs, f_range=(lo, hi), kwargs=kw, aligned=bool(aligned), family=fam)
 
